@@ -371,10 +371,9 @@ func flattenMetadata(data map[string]interface{}, prefix string) map[string]inte
 
 // exportJSONL exports chunks as JSON Lines (one JSON object per line)
 func (e *Exporter) exportJSONL(chunks []*Chunk, w io.Writer) error {
+	// PrettyPrint does not apply here: JSON Lines requires every object to
+	// stay on a single line.
 	encoder := json.NewEncoder(w)
-	if e.config.PrettyPrint {
-		encoder.SetIndent("", "  ")
-	}
 
 	for i, chunk := range chunks {
 		exported := e.prepareChunkForExport(chunk, i)
